@@ -39,7 +39,12 @@ Attrs == IF ReqSet = "full" THEN CctpAttrs \cup HypAttrs \cup IntAttrs \cup OddA
          ELSE { a \in CctpAttrs : a.dom = 0 } \cup { a \in HypAttrs : a.dom = 1 /\ a.rcp = "R_A" /\ a.gas = 77 } \cup IntAttrs \cup OddAttrs
 ActSets == { <<>>, <<FeeAct(<<Bps(1000, "F1")>>)>> }
 OddActs == { <<SwapAct>>, <<[id |-> "UNSUPPORTED", at |-> "FEE", fees |-> <<>>]>>, <<[id |-> "A7", at |-> "FEE", fees |-> <<>>]>>,
-             <<[id |-> "N2", at |-> "FEE", fees |-> <<>>]>>, <<[id |-> "AUNKNOWN", at |-> "FEE", fees |-> <<>>]>> }
+             <<[id |-> "N2", at |-> "FEE", fees |-> <<>>]>>, <<[id |-> "AUNKNOWN", at |-> "FEE", fees |-> <<>>]>>,
+             \* several different identifiers each repeated (which one the refusal names must not depend on map order)
+             <<FeeAct(<<>>), [id |-> "SWAP", at |-> "FEE", fees |-> <<>>], [id |-> "SWAP", at |-> "FEE", fees |-> <<>>], FeeAct(<<>>)>>,
+             <<[id |-> "A7", at |-> "FEE", fees |-> <<>>], [id |-> "A7", at |-> "FEE", fees |-> <<>>],
+               [id |-> "A9", at |-> "FEE", fees |-> <<>>], [id |-> "A9", at |-> "FEE", fees |-> <<>>]>>,
+             <<[id |-> "SWAP", at |-> "FEE", fees |-> <<>>], FeeAct(<<>>), FeeAct(<<>>), [id |-> "SWAP", at |-> "FEE", fees |-> <<>>], [id |-> "A7", at |-> "FEE", fees |-> <<>>], [id |-> "A7", at |-> "FEE", fees |-> <<>>]>> }
 
 Grid == { Xfer(0, "uusdc", 10000, [a EXCEPT !.pid = p], acts) : p \in Pids, a \in Attrs, acts \in ActSets }
         \cup { Xfer(0, "uusdc", 10000, fw, acts) : fw \in { FwCCTP(0, "MINT_A", "NONE"), FwINT("U") }, acts \in OddActs }
